@@ -6,7 +6,7 @@ PROP = {
     "generated": ["ReconTables"],
     "lean_modules": ["SwimVerif.Model.Recon", "SwimVerif.Model.ReconProto", "SwimVerif.Model.ReconInc",
                      "SwimVerif.Model.ReconIncProto", "SwimVerif.Proofs.Recon",
-                     "SwimVerif.Proofs.ReconFloat", "SwimVerif.Proofs.ReconStruct", "SwimVerif.Proofs.ReconStyles", "SwimVerif.Proofs.ReconInc",
+                     "SwimVerif.Proofs.ReconFloat", "SwimVerif.Proofs.ReconStruct", "SwimVerif.Proofs.ReconStyles", "SwimVerif.Proofs.ReconInc", "SwimVerif.Proofs.ReconIncCoupled",
                      "SwimVerif.Generated.ReconTables"],
     "engines": [
         # model values -> real printers (exact text vs model print) and print/parse cycles (vs model parse)
